@@ -90,6 +90,9 @@ enum AwaitForm {
     /// `! [p, #'int { N slow, VERDICT }]` with an int sent before the target ends: the target's completion
     /// or failure lands while the receive function is in flight (or just before / after)
     BeforeFilter { slow: u32, accept: bool },
+    /// `! [p, d…]` / `! [d…, p]` with daemons `d` (processes that never finish) living on other workers: the
+    /// initial await query is answered by several workers and merged by the environment
+    WithDaemons { daemons: Vec<usize>, target_first: bool },
 }
 
 #[derive(Clone, Debug, PartialEq, Eq, Hash, Serialize, Deserialize)]
@@ -99,6 +102,8 @@ enum Role {
     Const { v: i64, spin: u32 },
     Recv { n: usize },
     Sender { target: usize, n: usize, v: i64, spin: u32 },
+    /// never finishes (waits for a message nobody sends); exempt from the "every process ends" oracle
+    Daemon,
 }
 
 #[derive(Clone, Debug, PartialEq, Eq, Hash, Serialize, Deserialize)]
@@ -171,6 +176,10 @@ impl Scenario {
                         AwaitForm::SmallTimeoutFirst(ms) => format!("! [{ms}, p{target}]"),
                         AwaitForm::SmallTimeoutAfter(ms) => format!("! [p{target}, {ms}]"),
                         AwaitForm::WithReceive => format!("! [#'bin, p{target}]"),
+                        AwaitForm::WithDaemons { daemons, target_first } => {
+                            let ds: Vec<String> = daemons.iter().map(|d| format!("p{d}")).collect();
+                            if *target_first { format!("! [p{target}, {}]", ds.join(", ")) } else { format!("! [{}, p{target}]", ds.join(", ")) }
+                        }
                         AwaitForm::BeforeFilter { slow, accept } => {
                             format!("! [p{target}, #'int {{ {slow} slow, {} }}]", if *accept { "Ok" } else { "[]" })
                         }
@@ -187,6 +196,7 @@ impl Scenario {
                         "!#'int =a, !#'int =b, [a, b] __integer_add__".to_string()
                     }
                 }
+                Role::Daemon => "!#Never".to_string(),
                 Role::Sender { target, n, v, spin } => {
                     let mut s = String::new();
                     if *spin > 0 {
@@ -244,6 +254,9 @@ impl Scenario {
                 }
                 Role::Sender { v, .. } => {
                     s.insert(format!("ok:{v}"));
+                }
+                Role::Daemon => {
+                    s.insert("none".to_string());
                 }
             }
             out.push(s);
@@ -312,9 +325,17 @@ fn gen_scenario(r: &mut Rng) -> Scenario {
                 _ => Trigger::Go,
             };
             Role::Fail { kind, trigger }
-        } else if k < 62 {
-            let target = r.usize(i);
-            let form = match r.below(13) {
+        } else if k < 62 && (0..i).any(|j| procs[j] != Role::Daemon) {
+            let cands: Vec<usize> = (0..i).filter(|j| procs[*j] != Role::Daemon).collect();
+            let target = *r.pick(&cands);
+            let daemons: Vec<usize> = (0..i).filter(|j| procs[*j] == Role::Daemon).collect();
+            let form = match r.below(if daemons.is_empty() { 13 } else { 20 }) {
+                13..=19 => {
+                    let mut ds = daemons.clone();
+                    r.shuffle(&mut ds);
+                    ds.truncate(1 + r.usize(2));
+                    AwaitForm::WithDaemons { daemons: ds, target_first: r.chance(1, 2) }
+                }
                 10..=12 => AwaitForm::BeforeFilter { slow: *r.pick(&[5u32, 30, 150, 500]), accept: r.chance(1, 4) },
                 0..=4 => AwaitForm::Single,
                 5 => AwaitForm::BigTimeoutAfter,
@@ -324,7 +345,9 @@ fn gen_scenario(r: &mut Rng) -> Scenario {
                 _ => AwaitForm::WithReceive,
             };
             Role::Await { target, form, late: r.chance(2, 5) }
-        } else if k < 76 {
+        } else if k < 70 {
+            Role::Daemon
+        } else if k < 78 {
             Role::Const { v: 100 + i as i64, spin: *r.pick(&[0u32, 5, 50, 200]) }
         } else if k < 88 {
             Role::Recv { n: 1 + r.usize(2) }
@@ -400,7 +423,10 @@ fn gen_scenario(r: &mut Rng) -> Scenario {
     }
     sc.script = script;
     if r.chance(1, 4) {
-        sc.main_awaits = Some(r.usize(n));
+        let k = r.usize(n);
+        if sc.procs[k] != Role::Daemon {
+            sc.main_awaits = Some(k);
+        }
     }
     sc
 }
@@ -995,6 +1021,9 @@ fn judge(case: &Case, o: &Outcome, ev: &mut Ev) -> Vec<Verdict> {
     for (i, role) in sc.procs.iter().enumerate() {
         let got = &o.results[i];
         let allowed = &expected[i];
+        if *role == Role::Daemon {
+            continue;
+        }
         let is_awaiter = sc.awaits_failure(i) && !matches!(role, Role::Fail { .. });
         let kind = match role {
             Role::Fail { .. } => "failing",
@@ -1103,7 +1132,7 @@ fn main() {
         }
     }
     let n_corpus = cases.len();
-    let n_scen = opts.tier.pick(95u64, 1300);
+    let n_scen = opts.tier.pick(80u64, 1300);
     let n_sched = opts.tier.pick(4u64, 10);
     for i in 0..n_scen {
         let mut r = Rng::for_case(opts.seed ^ 0xC15, i);
@@ -1143,10 +1172,11 @@ fn main() {
         for r in &case.scenario.procs {
             ev.hit(&match r {
                 Role::Fail { kind, trigger } => format!("role:fail:{kind:?}:{}", match trigger { Trigger::Now => "now", Trigger::Countdown(_) => "countdown", Trigger::Go => "go" }),
-                Role::Await { form, late, .. } => format!("role:await:{}:{}", match form { AwaitForm::Single => "single", AwaitForm::BigTimeoutAfter => "timeout-after", AwaitForm::BigTimeoutBefore => "timeout-before", AwaitForm::SmallTimeoutFirst(_) => "small-timeout-first", AwaitForm::SmallTimeoutAfter(_) => "small-timeout-after", AwaitForm::BeforeFilter { accept, .. } => if *accept { "before-accepting-filter" } else { "before-rejecting-filter" }, AwaitForm::WithReceive => "with-receive" }, if *late { "late" } else { "early" }),
+                Role::Await { form, late, .. } => format!("role:await:{}:{}", match form { AwaitForm::Single => "single", AwaitForm::BigTimeoutAfter => "timeout-after", AwaitForm::BigTimeoutBefore => "timeout-before", AwaitForm::SmallTimeoutFirst(_) => "small-timeout-first", AwaitForm::SmallTimeoutAfter(_) => "small-timeout-after", AwaitForm::WithDaemons { .. } => "with-daemons-on-other-workers", AwaitForm::BeforeFilter { accept, .. } => if *accept { "before-accepting-filter" } else { "before-rejecting-filter" }, AwaitForm::WithReceive => "with-receive" }, if *late { "late" } else { "early" }),
                 Role::Const { .. } => "role:const".to_string(),
                 Role::Recv { .. } => "role:recv".to_string(),
                 Role::Sender { .. } => "role:sender".to_string(),
+                Role::Daemon => "role:daemon".to_string(),
             });
         }
         ev.add("worker-steps-compared", o.comparisons);
